@@ -3,6 +3,7 @@ package rules
 import (
 	"go/constant"
 	"go/token"
+	"go/types"
 	"os"
 	"strings"
 
@@ -15,6 +16,7 @@ func init() { register("C09", c09) }
 
 func c09(c *Ctx) {
 	defer c.truncationIsAnError()
+	defer c.hashIsOfInput()
 	P, R := c.P, c.R
 	R.Explain("R09.1", "T-GUARDED/T-PAIR: in WriteControlledStore.Get/Set/Delete the call into the wrapped store is dominated by acquireSyncRef(id) for the same id and by RLock (Get) / Lock (Set, Delete) on that entry's lock, with the unlock and releaseSyncRef deferred; only the two *Unchecked methods bypass it.")
 	R.Explain("R09.2", "T-SOURCE: every id passed to SetUnchecked is fresh (imap.NewInternalMessageID, directly, through a request struct field, or returned by Connector.CreateMessage): the unlocked write can never hit an id another goroutine is reading.")
@@ -106,6 +108,7 @@ func c09(c *Ctx) {
 		}
 	}
 	R.Min("R09.2", "SetUnchecked call sites", k, 4)
+	c.uncheckedDeleteOnlyFresh("R09.2")
 
 	// ---- R09.3 -----------------------------------------------------------------------
 	cntFld := c.fieldOf("store", "syncRef", "counter")
@@ -538,4 +541,201 @@ func (c *Ctx) truncationIsAnError() {
 		R.Check(bad == "", "R09.7", key, P.Pos(call.Pos()), "only io.EOF is tolerated", "with a non-nil decompressor error a nil-error return ("+bad+") is reachable without the error being io.EOF: a cache file truncated at a block boundary yields a prefix of the message instead of an error")
 	}
 	R.Min("R09.7", "decompressor WriteTo calls in Get", n, 1)
+}
+
+// uncheckedDeleteOnlyFresh: DeleteUnchecked (no per-id lock, used to undo a failed creation) is
+// only ever given ids that this operation generated itself.
+func (c *Ctx) uncheckedDeleteOnlyFresh(rule string) {
+	P, R := c.P, c.R
+	R.Explain(rule+"b", "the undo of a failed creation removes only what it created: every id passed to DeleteUnchecked originates from imap.NewInternalMessageID (through request structs, slices and maps) - an id that was looked up in the database belongs to a message that is still listed, deleting its file loses the bytes of an acknowledged message.")
+	k := 0
+	for _, f := range c.funcsInPkg("internal/state", "internal/backend") {
+		for _, cs := range engine.Calls(f) {
+			if !isStoreCall(cs, "DeleteUnchecked") {
+				continue
+			}
+			k++
+			okAll, bad := true, ""
+			n := 0
+			for _, a := range cs.Common().Args[1:] {
+				vals := []ssa.Value{a}
+				if els, ok := variadicElems(a); ok {
+					vals = els
+				}
+				// a value taken from a map while ranging over it: what was put into that map
+				var expanded []ssa.Value
+				for _, v := range vals {
+					expanded = append(expanded, mapRangeSources(v)...)
+				}
+				vals = expanded
+				for _, v := range vals {
+					for _, o := range P.Origins(v, engine.OriginOpts{FollowFields: true, Through: commonThrough, MaxDepth: 30, Stop: func(x ssa.Value) bool {
+						if call, ok := x.(*ssa.Call); ok {
+							if sc := call.Call.StaticCallee(); sc != nil && engine.ShortName(sc) == "NewInternalMessageID" {
+								return true
+							}
+						}
+						return false
+					}}) {
+						n++
+						if call, ok := o.V.(*ssa.Call); ok {
+							if sc := call.Call.StaticCallee(); sc != nil && engine.ShortName(sc) == "NewInternalMessageID" {
+								continue
+							}
+							if call.Call.IsInvoke() && call.Call.Method.Name() == "CreateMessage" {
+								continue // id generated by the connector layer for the message being created
+							}
+						}
+						if o.Kind == "const" {
+							continue
+						}
+						okAll, bad = false, o.V.String()+" in "+parentName(c, o.V)
+					}
+				}
+			}
+			R.Check(okAll && n > 0, rule+"b", c.name(f)+"|DeleteUnchecked", P.Pos(cs.Pos()), "only freshly generated ids are removed without the per-id lock", "DeleteUnchecked can be given an id that was not generated by this operation ("+bad+"): the cache file of a message that is still listed is deleted when the transaction fails")
+		}
+	}
+	R.Min(rule+"b", "DeleteUnchecked call sites", k, 1)
+}
+
+// mapRangeSources: if v is the value component of `for _, v := range m`, the values stored into m in
+// the same function (recursively through loads); otherwise v itself.
+func mapRangeSources(v ssa.Value) []ssa.Value {
+	ex, ok := v.(*ssa.Extract)
+	if !ok {
+		return []ssa.Value{v}
+	}
+	nx, ok := ex.Tuple.(*ssa.Next)
+	if !ok || ex.Index != 2 {
+		return []ssa.Value{v}
+	}
+	rng, ok := nx.Iter.(*ssa.Range)
+	if !ok {
+		return []ssa.Value{v}
+	}
+	if _, isMap := rng.X.Type().Underlying().(*types.Map); !isMap {
+		return []ssa.Value{v}
+	}
+	var out []ssa.Value
+	f := rng.Parent()
+	for _, g := range engine.WithClosures(f) {
+		for _, b := range g.Blocks {
+			for _, in := range b.Instrs {
+				if mu, ok := in.(*ssa.MapUpdate); ok && sameMapValue(mu.Map, rng.X) {
+					out = append(out, mu.Value)
+				}
+			}
+		}
+	}
+	if len(out) == 0 {
+		return []ssa.Value{v}
+	}
+	return out
+}
+
+func sameMapValue(a, b ssa.Value) bool {
+	if a == b {
+		return true
+	}
+	root := func(v ssa.Value) ssa.Value {
+		for i := 0; i < 4; i++ {
+			u, ok := v.(*ssa.UnOp)
+			if !ok {
+				return v
+			}
+			switch x := u.X.(type) {
+			case *ssa.Alloc:
+				sts := engine.StoresTo(x)
+				if len(sts) == 1 {
+					v = sts[0].Val
+					continue
+				}
+				return x
+			case *ssa.FreeVar:
+				bs := engine.FreeVarBinding(x)
+				if len(bs) == 1 {
+					if al, ok := bs[0].(*ssa.Alloc); ok {
+						sts := engine.StoresTo(al)
+						if len(sts) == 1 {
+							v = sts[0].Val
+							continue
+						}
+						return al
+					}
+				}
+				return x
+			}
+			return v
+		}
+		return v
+	}
+	return root(a) == root(b)
+}
+
+// hashIsOfInput (R09.8): a digest is computed over data that was written to the hasher.
+func (c *Ctx) hashIsOfInput() {
+	P, R := c.P, c.R
+	R.Explain("R09.8", "key derivation and content hashes digest their input: every call of hash.Hash.Sum is preceded, on the same hasher, by a Write (directly or through io.Copy / an io.Writer use) that dominates it; Sum's own argument is only a prefix to append to and is not hashed - sha256.New().Sum(passphrase) yields passphrase||const, so two passphrases with a common 32-byte prefix derive the same store key and a file written with one is readable with the other.")
+	n := 0
+	for _, f := range c.productFuncs() {
+		for _, cs := range engine.Calls(f) {
+			cc := cs.Common()
+			if !cc.IsInvoke() || cc.Method.Name() != "Sum" || !strings.HasSuffix(cc.Value.Type().String(), "hash.Hash") {
+				continue
+			}
+			n++
+			// uses of the same hasher value that feed it data and dominate the Sum
+			fed := false
+			h := cc.Value
+			roots := []ssa.Value{h}
+			if u, ok := h.(*ssa.UnOp); ok {
+				roots = append(roots, u.X) // hasher kept in a cell: other loads of the same cell
+			}
+			for _, cs2 := range engine.Calls(f) {
+				if cs2.Instr == cs.Instr || !engine.InstrDominates(cs2.Instr, cs.Instr) {
+					continue
+				}
+				c2 := cs2.Common()
+				same := func(v ssa.Value) bool {
+					for _, r := range roots {
+						if v == r {
+							return true
+						}
+						if u, ok := v.(*ssa.UnOp); ok && u.X == r {
+							return true
+						}
+						if mi, ok := v.(*ssa.MakeInterface); ok && (mi.X == r) {
+							return true
+						}
+						if ct, ok := v.(*ssa.ChangeInterface); ok && (ct.X == r) {
+							return true
+						}
+					}
+					return false
+				}
+				if c2.IsInvoke() && c2.Method.Name() == "Write" && same(c2.Value) {
+					fed = true
+				}
+				for _, a := range c2.Args {
+					if same(a) {
+						fed = true // handed to a function as io.Writer (hashBody, io.Copy, ...)
+					}
+				}
+			}
+			// a closure that writes to the captured hasher before Sum (walk callbacks)
+			if !fed {
+				for _, g := range engine.WithClosures(f)[1:] {
+					for _, cs3 := range engine.Calls(g) {
+						c3 := cs3.Common()
+						if c3.IsInvoke() && c3.Method.Name() == "Write" && strings.HasSuffix(c3.Value.Type().String(), "hash.Hash") {
+							fed = true
+						}
+					}
+				}
+			}
+			R.Check(fed, "R09.8", c.name(f)+"|Sum", P.Pos(cs.Pos()), "the hasher was fed before Sum", "hash.Sum is called on a hasher nothing was written to: the result is the digest of the empty input appended to Sum's argument, not a digest of the data (keys/hashes of different inputs coincide)")
+		}
+	}
+	R.Min("R09.8", "hash.Sum call sites", n, 2)
 }
